@@ -63,7 +63,7 @@ type authCase struct {
 const topic = "t"
 
 var mechs = []string{"PLAIN", "SCRAM-SHA-256", "SCRAM-SHA-512"}
-var entries = []string{"dial", "dialleader", "client", "writer"}
+var entries = []string{"dial", "dialleader", "client", "writer", "newwriter"}
 
 // every fault, with the step at which the exchange fails (0 = handshake, n = authenticate round n)
 var faults = []struct {
@@ -230,6 +230,9 @@ func run(tb ev.TB, c authCase) {
 		cfg.ServerFinalError = true
 	default:
 		tb.Fatalf("harness: unknown fault %q", c.Fault)
+	}
+	if c.Entry == "client" {
+		cfg.StepDelay = 2 * time.Millisecond // the two brokers' exchanges interleave
 	}
 	cl.EnableSASL(cfg)
 
@@ -499,14 +502,72 @@ func call(c authCase, nw *memnet.Network, cl *fakecluster.Cluster, mech sasl.Mec
 		tr := &kafka.Transport{Dial: nw.Dial, SASL: mech, MetadataTTL: time.Hour, DialTimeout: callTimeout, ClientID: "c18"}
 		*cleanup = append(*cleanup, tr.CloseIdleConnections)
 		client := &kafka.Client{Addr: kafka.TCP(bootstrap), Transport: tr}
-		r, err := client.ListOffsets(ctx, &kafka.ListOffsetsRequest{Topics: map[string][]kafka.OffsetRequest{topic: {kafka.FirstOffsetOf(1), kafka.LastOffsetOf(1)}}})
+		// A second goroutine uses the same Transport for the other partition at the same time: its leader is the other broker,
+		// so two connections authenticate at about the same time with the one mechanism value the Transport holds.  (The
+		// call below asks for both partitions as well; the Transport dials for the parts of one call one after the other.)
+		otherDone := make(chan error, 1)
+		go func() {
+			r, err := client.ListOffsets(ctx, &kafka.ListOffsetsRequest{Topics: map[string][]kafka.OffsetRequest{topic: {kafka.LastOffsetOf(0)}}})
+			if err == nil {
+				for _, x := range r.Topics[topic] {
+					if x.Error != nil {
+						err = x.Error
+					}
+				}
+			}
+			otherDone <- err
+		}()
+		defer func() {
+			if oerr := <-otherDone; oerr != nil && res.dialErr == nil {
+				res.dialErr = fmt.Errorf("concurrent ListOffsets for partition 0 (the other broker): %w", oerr)
+			}
+		}()
+		r, err := client.ListOffsets(ctx, &kafka.ListOffsetsRequest{Topics: map[string][]kafka.OffsetRequest{topic: {kafka.FirstOffsetOf(1), kafka.LastOffsetOf(1), kafka.LastOffsetOf(0)}}})
 		if err != nil {
 			res.dialErr = err
 			return
 		}
-		po := r.Topics[topic]
-		if len(po) != 1 || po[0].Partition != 1 || po[0].Error != nil || po[0].FirstOffset != c.First || po[0].LastOffset != c.Last {
+		var po []kafka.PartitionOffsets
+		for _, x := range r.Topics[topic] {
+			if x.Partition == 1 {
+				po = append(po, x)
+			} else if x.Error != nil {
+				// the sub-request to the other broker failed: with the right credentials that is a failed authentication
+				res.dialErr = fmt.Errorf("ListOffsets for partition %d (the other broker): %w", x.Partition, x.Error)
+				return
+			}
+		}
+		if len(po) != 1 || po[0].Error != nil || po[0].FirstOffset != c.First || po[0].LastOffset != c.Last {
+			if len(po) == 1 && po[0].Error != nil {
+				res.dialErr = fmt.Errorf("ListOffsets for partition 1: %w", po[0].Error)
+				return
+			}
 			res.wrong = fmt.Sprintf("ListOffsets returned %+v; partition 1 spans [%d,%d)", po, c.First, c.Last)
+		}
+	case "newwriter":
+		// the pre-0.4 constructor: the SASL mechanism travels in WriterConfig.Dialer and NewWriter converts the Dialer into
+		// a Transport of its own (whose dial function is then pointed at the in-memory network)
+		w := kafka.NewWriter(kafka.WriterConfig{Brokers: []string{bootstrap}, Topic: topic, Dialer: &kafka.Dialer{SASLMechanism: mech, Timeout: callTimeout, ClientID: "c18"},
+			BatchTimeout: time.Millisecond, MaxAttempts: 1, RequiredAcks: int(kafka.RequireAll), Balancer: kafka.BalancerFunc(func(kafka.Message, ...int) int { return 1 })})
+		tr, ok := w.Transport.(*kafka.Transport)
+		if !ok {
+			res.dialErr = fmt.Errorf("harness: NewWriter did not build a *kafka.Transport")
+			return
+		}
+		tr.Dial = nw.Dial
+		*cleanup = append(*cleanup, func() { w.Close() })
+		err := w.WriteMessages(ctx, kafka.Message{Key: []byte("k-" + c.User.Raw), Value: []byte("v-" + c.Pass.Raw)})
+		if err != nil {
+			res.dialErr = err
+			return
+		}
+		var stored []string
+		for _, r := range cl.Records(topic, 1) {
+			stored = append(stored, fmt.Sprintf("%d:%q=%q", r.Offset, r.Key, r.Value))
+		}
+		want := fmt.Sprintf("%d:%q=%q", c.Last, "k-"+c.User.Raw, "v-"+c.Pass.Raw)
+		if len(stored) != 1 || stored[0] != want {
+			res.wrong = fmt.Sprintf("partition 1 holds %v after WriteMessages returned nil; expected exactly [%s]", stored, want)
 		}
 	case "writer":
 		tr := &kafka.Transport{Dial: nw.Dial, SASL: mech, MetadataTTL: time.Hour, DialTimeout: callTimeout, ClientID: "c18"}
